@@ -29,14 +29,16 @@ def spell(rng, v):
     return txt
 
 
-def gen_case(rng):
+def gen_case(rng, is_fill=None, table=None):
     kind = rng.choice(KINDS)
-    is_fill = rng.random() < 0.6
+    if is_fill is None:
+        is_fill = rng.random() < 0.6
     star = kind.startswith('star') or (kind in ('num', 'none', 'three',
                                                 'null3')
                                        and rng.random() < 0.2)
-    table = {}
-    for _ in range(rng.randint(0, 3)):
+    fixed_table = table is not None
+    table = {} if table is None else table
+    for _ in range(0 if fixed_table else rng.randint(0, 3)):
         n = rng.randint(1, 40)
         r = rng.random()
         if r < 0.25:
@@ -57,6 +59,8 @@ def gen_case(rng):
         params = [float(rng.choice(sorted(table)))]
     elif kind == 'num_missing':
         n = rng.randint(41, 60)
+        while n in table:
+            n = rng.randint(41, 60)
         params = [float(n)]
     elif kind in ('three', 'star3'):
         params = [rng.choice([0.0, 1.0, -1.0, 2.5, -3.0, 0.5, 0.0])
@@ -128,3 +132,108 @@ def coq_case(case, outcome):
                      for a, b in zip(got, case['truth']))
         out = (f'(KOk {clist(cz(code(v)) for v in got)} {cbool(ok)})')
     return f'(mkKw {cbool(case["is_fill"])} {cbool(case["star"])} {cz(trid)} {params} {table} {out})'
+
+
+# ---- whole cell cards: parse_one_cell_worker -> CellMCNP fields ---------------
+
+def gen_cell_case(rng):
+    table = {}
+    for _ in range(rng.randint(0, 3)):
+        n = rng.randint(1, 40)
+        if rng.random() < 0.25:
+            entries = [0.0, 0.0, 0.0, 1.0, 0.0, 0.0, 0.0, 1.0, 0.0, 0.0, 0.0,
+                       1.0]
+        else:
+            tr = deckmod.random_tr(rng, star=False, translate_only=False)
+            entries = list(tr['O']) + list(tr['B'])
+        table[n] = [float(v) for v in entries]
+    fill = gen_case(rng, True, table) if rng.random() < 0.75 else None
+    trcl = gen_case(rng, False, table) if rng.random() < 0.7 else None
+    univ = rng.choice([None, None, 1, 3, -2, -7, 0])
+    parts = []
+    if fill is not None:
+        nums = fill['tokens'][1:len(fill['tokens']) - len(fill['tail'])]
+        txt = ('*' if fill['star'] else '') + f'fill={fill["univ"]}'
+        if nums:
+            txt += ' (' + ' '.join(nums) + ')'
+        parts.append(txt)
+    if trcl is not None:
+        nums = trcl['tokens'][:len(trcl['tokens']) - len(trcl['tail'])]
+        if nums:
+            sep = rng.random() < 0.5 or len(nums) > 1
+            txt = ('*' if trcl['star'] else '') + 'trcl=' + \
+                ('(' + ' '.join(nums) + ')' if sep else nums[0])
+            parts.append(txt)
+        elif rng.random() < 0.6:
+            # malformed: a bare TRCL keyword (the tuple is (), or the identity
+            # when starred)
+            parts.append(('*' if trcl['star'] else '') + 'trcl')
+        else:
+            trcl = None
+    if univ is not None:
+        parts.append(f'u={univ}')
+    parts.append('imp:n=1')
+    rng.shuffle(parts)
+    return {'table': table, 'fill': fill, 'trcl': trcl, 'u': univ,
+            'option': ' '.join(parts)}
+
+
+def run_cell_impl(case):
+    """('err', 1) | ('ok', (universe, fillid, filltr, trcl list))"""
+    from t4_geom_convert.Kernel.FileHandlers.Parser.ParseMCNPCell import \
+        ParseMCNPCell
+    obj = ParseMCNPCell.__new__(ParseMCNPCell)
+    obj.transforms = {k: list(v) for k, v in case['table'].items()}
+    obj.importances = []
+    obj.lattice_params = {}
+    try:
+        cell = obj.parse_one_cell_worker(0, None, ('1 -1.0', '-1',
+                                                   case['option']))
+    except KeyError:
+        return ('err', 1)
+    return ('ok', (cell.universe, cell.fillid, cell.filltr,
+                   [tuple(t) for t in cell.trcl]))
+
+
+def coq_cell_case(case, outcome):
+    codes = {0.0: 0, 1.0: 1}
+
+    def code(v):
+        v = float(v)
+        if v not in codes:
+            codes[v] = len(codes)
+        return codes[v]
+
+    def clz(values):
+        return clist(cz(code(v)) for v in values)
+
+    def kw(sub, with_univ):
+        if sub is None:
+            return 'None'
+        trid = int(sub['params'][0]) if len(sub['params']) == 1 else 0
+        items = [cbool(sub['star'])] + ([cz(sub['univ'])] if with_univ else []) \
+            + [cz(trid), clz(sub['params'])]
+        return '(Some ' + cpair(*items) + ')'
+    table = clist(cpair(cz(n), clz(entries))
+                  for n, entries in sorted(case['table'].items()))
+    norms, ok = [], True
+    if outcome[0] == 'ok':
+        univ, fillid, filltr, trcls = outcome[1]
+        for sub, got in ((case['fill'], filltr),
+                         (case['trcl'], trcls[0] if trcls else None)):
+            if sub is not None and sub['truth'] is not None:
+                if got is None or len(got) != 12 or any(
+                        abs(float(a) - float(b)) > 1e-9
+                        for a, b in zip(got, sub['truth'])):
+                    ok = False
+                else:
+                    norms.append(cpair(clz(sub['params']), clz(got)))
+        out = ('(COk ' + cz(int(univ)) + ' '
+               + ('None' if fillid is None else f'(Some {cz(int(fillid))})')
+               + ' ' + ('None' if filltr is None else f'(Some {clz(filltr)})')
+               + ' ' + clist(clz(t) for t in trcls) + f' {cbool(ok)})')
+    else:
+        out = f'(CErr {cz(outcome[1])})'
+    u = 'None' if case['u'] is None else f'(Some {cz(case["u"])})'
+    return (f'(mkCk {table} {u} {kw(case["fill"], True)} '
+            f'{kw(case["trcl"], False)} {clist(norms)} {out})')
